@@ -9,7 +9,8 @@ which statements are false for the formulas as they stand before the fixes.
 
 * `cond_selects`, `cond_selects_ok`, `cond_selects_unbalanced`, `expandAll_tree` — a
   well-nested tree of any depth delivers exactly its selected branch
-* `cond_selects_raw`, `skipped_raw_contributes_nothing` — the same with *raw* skipped branches
+* `cond_selects_raw`, `skipped_raw_contributes_nothing`, `tree_spec_is_instance` — the same with
+  *raw* skipped branches; the tree specification is an instance
 * `skipped_text_contributes_nothing` — every skipping loop, at every depth, passes over any
   well-nested text without any change of state
 * `ifodd_spec`, `ifnum_spec`, `test_spec`, `ifcase_spec`, `ifcase_selects` — the conditions
@@ -73,6 +74,10 @@ theorem cond_selects_raw {l : List Tok} {p : List Plain} (h : Delivers l p)
     (st : List BranchKind) (g : Nat) (o rest : List Tok) :
     run ⟨st, .deliver, g, o⟩ (l ++ rest) = run ⟨st, .deliver, g, o⟩ (p.map Plain.tok ++ rest) := by
   rw [delivers_run h, run_plain]
+
+/-- The executable tree specification (used by the correspondence) is an instance of the
+relational one: every tree's flattening delivers the tree's selection. -/
+theorem tree_spec_is_instance (t : Text) : Delivers t.flatten t.select := delivers_flatten t
 
 /-- Raw skipped text contributes nothing: every skipping loop at every depth `d ≥ 0` passes over
 any token list that is if/fi-balanced with no `\else`/`\or` at its own level
